@@ -213,6 +213,14 @@ func (ls *listenServer) OnMoved(addr string, slot int32, s core.SConn, f *core.F
 	delete(f.Peer.Fd2Slot, s.Fd())
 	f.Peer.Fd2Slot[sConn.Fd()] = slot
 
+	// the node importing a slot only serves a redirected request that is preceded by ASKING
+	if f.Type == codec.RspAsk {
+		asking := core.FragPool.Get()
+		asking.NoReply = true
+		asking.Req = append(asking.Req, Asking...)
+		sConn.EnqueueOutFrag(asking)
+	}
+
 	sConn.EnqueueOutFrag(f)
 	return true
 }
